@@ -194,7 +194,7 @@ fn completeness_in(path: &Path, file: &gen::ast::File, src: &str, rec: &Rec) -> 
 // (b) faithfulness: sugared program vs hand-written expansion
 // ---------------------------------------------------------------------------
 
-const LIB: &str = "template A0() { signal output o; o <== 7; }\ntemplate A1(k) { signal input a; signal output o; o <== a * k; }\ntemplate A2(k) { signal input a; signal input b; signal output o; o <== a * b + k; }\ntemplate A22(k) { signal input a; signal input b; signal output o1; signal output o2; o1 <== a + b; o2 <== a * k; }\ntemplate AN2(k) { signal input a; signal input b; a * k === b; }\n";
+const LIB: &str = "template A0() { signal output o; o <== 7; }\ntemplate A1(k) { signal input a; signal output o; o <== a * k; }\ntemplate A2(k) { signal input a; signal input b; signal output o; o <== a * b + k; }\ntemplate A22(k) { signal input a; signal input b; signal output o1; signal output o2; o1 <== a + b; o2 <== a * k; }\ntemplate AN2(k) { signal input a; signal input b; a * k === b; }\ntemplate B2(k) { signal input q, p; signal output z, y; z <== q * k; y <== p + k; }\n";
 
 struct Pair {
     sugared: String,
@@ -227,7 +227,7 @@ fn gen_pair(t: &mut Tape) -> Pair {
         let kk = 1 + t.below(5);
         let (e1, e2, e3) = (expr(t, 2), expr(t, 2), expr(t, 1));
         let op = if t.chance(170) { "<==" } else { "<--" };
-        match t.below(if allow_decl { 12 } else { 9 }) {
+        match t.below(if allow_decl { 14 } else { 11 }) {
             0 => {
                 forms.push("tuple assignment with _");
                 s.push_str(&format!("    (ta{i}, _, tb{i}) {op} ({e1}, {e2}, {e3});\n"));
@@ -275,11 +275,21 @@ fn gen_pair(t: &mut Tape) -> Pair {
                 e.push_str(&format!("    zc{i} = A1({kk});\n    zc{i}.a {op} {e2};\n    ta{i} <== {e1};\n    tb{i} <== zc{i}.o;\n"));
             }
             9 => {
+                forms.push("anonymous component whose inputs and outputs are declared in one comma-separated statement, not alphabetically");
+                s.push_str(&format!("    (ta{i}, tb{i}) <== B2({kk})({e1}, {e2});\n"));
+                e.push_str(&format!("    zc{i} = B2({kk});\n    zc{i}.q <== {e1};\n    zc{i}.p <== {e2};\n    ta{i} <== zc{i}.z;\n    tb{i} <== zc{i}.y;\n"));
+            }
+            10 => {
+                forms.push("second output of an anonymous component discarded with _");
+                s.push_str(&format!("    (ta{i}, _) <== B2({kk})({e1}, {e2});\n    tb{i} <== 2;\n"));
+                e.push_str(&format!("    zc{i} = B2({kk});\n    zc{i}.q <== {e1};\n    zc{i}.p <== {e2};\n    ta{i} <== zc{i}.z;\n    tb{i} <== 2;\n"));
+            }
+            11 => {
                 forms.push("tuple declaration of signals");
                 s.push_str(&format!("    signal (td{i}, te{i}) {op} ({e1}, {e2});\n    ta{i} <== td{i};\n    tb{i} <== te{i};\n"));
                 e.push_str(&format!("    signal td{i};\n    signal te{i};\n    td{i} {op} {e1};\n    te{i} {op} {e2};\n    ta{i} <== td{i};\n    tb{i} <== te{i};\n"));
             }
-            10 => {
+            12 => {
                 forms.push("tuple declaration of variables");
                 s.push_str(&format!("    var (vd{i}, ve{i}) = ({e1}, {e2});\n    ta{i} <== vd{i};\n    tb{i} <== ve{i};\n"));
                 e.push_str(&format!("    var vd{i};\n    var ve{i};\n    vd{i} = {e1};\n    ve{i} = {e2};\n    ta{i} <== vd{i};\n    tb{i} <== ve{i};\n"));
@@ -345,7 +355,7 @@ fn normalise(m: &str) -> String {
             }
             let word: String = chars[i..j].iter().collect();
             let parts: Vec<&str> = word.split('_').collect();
-            let synth = parts.len() == 3 && matches!(parts[0], "A0" | "A1" | "A2" | "A22" | "AN2") && parts[1].chars().all(|c| c.is_ascii_digit()) && parts[2].chars().all(|c| c.is_ascii_digit()) && !parts[1].is_empty() && !parts[2].is_empty();
+            let synth = parts.len() == 3 && matches!(parts[0], "A0" | "A1" | "A2" | "A22" | "AN2" | "B2") && parts[1].chars().all(|c| c.is_ascii_digit()) && parts[2].chars().all(|c| c.is_ascii_digit()) && !parts[1].is_empty() && !parts[2].is_empty();
             let hand = word.starts_with("zc") && word.len() > 2 && word[2..].chars().all(|c| c.is_ascii_digit());
             if synth || hand {
                 out.push_str("COMP");
